@@ -494,6 +494,15 @@ func C12(c *Ctx) {
 				if idx, allowed := u.allow[name]; allowed && ci.Common().Args[idx] == ssa.Value(p) {
 					ok = true
 				}
+				// a helper of the same package that only takes the path's absolute form, stats it, compares its directory
+				// and uses it as the key of the loader overlay (rule C12-6) – never opens or reads it
+				if callee := ci.Common().StaticCallee(); !ok && callee != nil && callee.Blocks != nil && callee.Pkg == u.fn.Pkg {
+					for i, a := range ci.Common().Args {
+						if a == ssa.Value(p) && i < len(callee.Params) && pathOnlyAddressed(callee.Params[i], 0) {
+							ok = true
+						}
+					}
+				}
 			}
 			r.Check("C12-2", sprintf("%s:%s:use%d", FnKey(u.fn), u.param, n), c.InstrPos(rf), ok, "the output path flows into "+desc+" (only "+strings.Join(sortedKeys(u.allow), ", ")+" may receive it)")
 		}
@@ -584,6 +593,7 @@ func C12(c *Ctx) {
 	r.Check("C12-3", "no-error-field-read", "-", true, "")
 
 	c.pkgImportsIndexRule("C12-5")
+	c.overlayRule("C12-6")
 
 	r.Rule("C12-4", "exactly one os.WriteFile in module code, outside any loop, writing the whole formatted content")
 	if g != nil {
@@ -604,4 +614,53 @@ func (c *Ctx) paramReachesLoadPattern(fn *ssa.Function, pname string) bool {
 		}
 	}
 	return false
+}
+
+// pathOnlyAddressed: the path value flows only into os.Stat, filepath.Abs (whose result is again only addressed),
+// filepath.Dir (whose result is only compared) and the key of a map update; it is never opened, read or printed.
+func pathOnlyAddressed(v ssa.Value, depth int) bool {
+	if depth > 4 || v.Referrers() == nil {
+		return depth <= 4
+	}
+	for _, rf := range *v.Referrers() {
+		switch x := rf.(type) {
+		case *ssa.DebugRef:
+		case *ssa.Extract:
+			if x.Index == 0 && !pathOnlyAddressed(x, depth+1) {
+				return false
+			}
+		case *ssa.MapUpdate:
+			if x.Key != v {
+				return false
+			}
+		case *ssa.BinOp:
+			// comparison of directories
+		case *ssa.Call:
+			switch core.CalleeName(&x.Call) {
+			case "os.Stat":
+				if x.Call.Args[0] != v {
+					return false
+				}
+			case "path/filepath.Abs":
+				if x.Call.Args[0] != v || !pathOnlyAddressed(x, depth+1) {
+					return false
+				}
+			case "path/filepath.Dir":
+				if x.Referrers() != nil {
+					for _, r2 := range *x.Referrers() {
+						if _, isCmp := r2.(*ssa.BinOp); !isCmp {
+							if _, isDbg := r2.(*ssa.DebugRef); !isDbg {
+								return false
+							}
+						}
+					}
+				}
+			default:
+				return false
+			}
+		default:
+			return false
+		}
+	}
+	return true
 }
